@@ -190,7 +190,7 @@ set_transform_v (pixman_image_t *im, int v)
     static const pixman_fixed_t base[3][9] = {
 	{ 0x10000, 0, 0x10000, 0, 0x10000, 0x8000, 0, 0, 0x10000 },		/* translate (1, 0.5) */
 	{ 0x20000, 0, 0, 0, 0x8000, 0, 0, 0, 0x10000 },				/* scale (2, 0.5) */
-	{ 0x18000, 0x4000, 0x8000, -0x2000, 0xc000, 0x10000, 0, 0, 0x10000 },	/* general affine */
+	{ 0x18000, 0x4000, 0x8000, -0x2000, 0xc000, 0x14000, 0, 0, 0x10000 },	/* general affine */
     };
     static const pixman_fixed_t delta[9] = { 0x4000, 0x4000, 0x8000, 0x4000, 0x4000, 0x8000, 0x0400, 0x0400, 0x4000 };
     pixman_transform_t t;
@@ -202,8 +202,21 @@ set_transform_v (pixman_image_t *im, int v)
     if (v >= 2)
     {
 	const pixman_fixed_t *b = base[cfg_variant % 3];
+	pixman_fixed_t m[9];
+	/* coinciding values: 12..14 exchange two entries, 15..18 give an entry the value of another one */
+	static const int xch[3][2] = { { 0, 4 }, { 2, 5 }, { 1, 3 } };
+	static const int cpy[4][2] = { { 4, 0 }, { 5, 2 }, { 0, 4 }, { 2, 5 } };	/* dst := src */
 	for (k = 0; k < 9; k++)
-	    t.matrix[k / 3][k % 3] = b[k] + (v == 3 + k ? delta[k] : 0);
+	    m[k] = b[k] + (v == 3 + k ? delta[k] : 0);
+	if (v >= 12 && v <= 14)
+	{
+	    m[xch[v - 12][0]] = b[xch[v - 12][1]];
+	    m[xch[v - 12][1]] = b[xch[v - 12][0]];
+	}
+	if (v >= 15 && v <= 18)
+	    m[cpy[v - 15][0]] = b[cpy[v - 15][1]];
+	for (k = 0; k < 9; k++)
+	    t.matrix[k / 3][k % 3] = m[k];
     }
     r = pixman_image_set_transform (im, &t);
     memset (&t, 0x5b, sizeof t);
@@ -214,7 +227,7 @@ static pixman_bool_t
 set_filter_v (pixman_image_t *im, int v)
 {
     static const pixman_fixed_t k3[11] = { 3 * pixman_fixed_1, 3 * pixman_fixed_1,
-	0x1000, 0x2000, 0x1000, 0x2000, 0x4000, 0x2000, 0x1000, 0x2000, 0x1000 };
+	0x1000, 0x2000, 0x1800, 0x2000, 0x4000, 0x2000, 0x1400, 0x2000, 0x0c00 };
     static const pixman_fixed_t k1[5] = { 3 * pixman_fixed_1, pixman_fixed_1, 0x4000, 0x8000, 0x4000 };
     static const pixman_fixed_t sep[9] = { 2 * pixman_fixed_1, pixman_fixed_1, pixman_fixed_1, 0,
 	0x8000, 0x8000, 0xc000, 0x4000, pixman_fixed_1 };
@@ -226,18 +239,21 @@ set_filter_v (pixman_image_t *im, int v)
 	return pixman_image_set_filter (im, PIXMAN_FILTER_NEAREST, NULL, 0);
     if (v == 1)
 	return pixman_image_set_filter (im, PIXMAN_FILTER_BILINEAR, NULL, 0);
-    if (v <= 6)
+    if (v <= 6 || v == 12 || v == 13)
     {
 	n = 11;
 	memcpy (buf, k3, sizeof k3);
 	if (v == 4) buf[2] = 0x9000;		/* first coefficient only */
 	if (v == 5) buf[6] = 0xc000;		/* a middle coefficient only */
 	if (v == 6) buf[10] = 0x9000;		/* last coefficient only */
+	if (v == 12) buf[10] = buf[2];		/* last := first */
+	if (v == 13) { buf[2] = k3[6]; buf[6] = k3[2]; }	/* first <-> middle */
     }
-    else if (v == 7)
+    else if (v == 7 || v == 14)
     {
 	n = 5;
 	memcpy (buf, k1, sizeof k1);
+	if (v == 14) { buf[0] = k1[1]; buf[1] = k1[0]; }	/* width <-> height: 1x3 */
     }
     else
     {
@@ -247,6 +263,7 @@ set_filter_v (pixman_image_t *im, int v)
 	if (v == 9) buf[4] = 0x2000;		/* first tap only */
 	if (v == 10) buf[6] = 0x4000;		/* a middle tap only */
 	if (v == 11) buf[8] = 0x8000;		/* last tap only */
+	if (v == 15) { buf[4] = sep[8]; buf[8] = sep[4]; }	/* first <-> last tap */
     }
     r = pixman_image_set_filter (im, kind, buf, n);
     memset (buf, 0x5b, 16 * sizeof (pixman_fixed_t));
@@ -259,10 +276,12 @@ set_clip_v (pixman_image_t *im, int v)
     pixman_box32_t bx[2] = { { 0, 0, 3, 2 }, { 2, 3, 7, 5 } };
     pixman_region32_t reg;
     pixman_bool_t r;
-    int n = v == 1 ? 1 : 2;
+    int n = (v == 1 || v == 6) ? 1 : 2;
     if (v == 0)
 	return pixman_image_set_clip_region32 (im, NULL);
     if (v == 1) { bx[0].x1 = 1; bx[0].y1 = 0; bx[0].x2 = 6; bx[0].y2 = 3; }
+    if (v == 6) { bx[0].x1 = 0; bx[0].y1 = 1; bx[0].x2 = 6; bx[0].y2 = 3; }	/* x1 <-> y1 of 1 */
+    if (v == 5) { bx[0].x2 = 2; bx[0].y2 = 3; }	/* x2 <-> y2 of the first rectangle of 2 */
     if (v == 3) bx[1].x2 = 6;			/* only the last rectangle differs from 2 */
     if (v == 4) bx[0].x2 = 4;			/* only the first rectangle differs from 2 */
     if (cfg_variant & 4)
@@ -304,15 +323,20 @@ apply_prop (bimg_t *x, bimg_t *a, bimg_t *b, int p, int v, const int *want)
     case P_AO:
     {
 	int am = p == P_AM ? v : want[P_AM], ao = p == P_AO ? v : want[P_AO];
-	pixman_image_set_alpha_map (im, am == 0 ? NULL : am == 1 ? a->img : b->img,
-				    (int16_t)((ao & 1) ? 1 : 0), (int16_t)((ao & 2) ? -1 : 0));
+	static const int16_t org[3] = { 0, 1, -1 };	/* x and y over the same values */
+	pixman_image_set_alpha_map (im, am == 0 ? NULL : am == 1 ? a->img : b->img, org[ao % 3], org[(ao / 3) % 3]);
 	break;
     }
     case P_CA: pixman_image_set_component_alpha (im, v); break;
     case P_ACC: pixman_image_set_accessors (im, v ? rd : NULL, v ? wr : NULL); break;
     case P_PAL: pixman_image_set_indexed (im, &pal[v]); break;
     case P_D: pixman_image_set_dither (im, dithers[v % 3]); break;
-    case P_DOF: pixman_image_set_dither_offset (im, (v & 1) ? 3 : 0, (v & 2) ? 1 : 0); break;
+    case P_DOF:
+    {
+	static const int off[3] = { 0, 3, 1 };
+	pixman_image_set_dither_offset (im, off[v % 3], off[(v / 3) % 3]);
+	break;
+    }
     case P_MA: pixman_image_set_accessors (a->img, v ? rd : NULL, v ? wr : NULL); break;
     }
 }
